@@ -32,7 +32,7 @@ type Iterator[T any] struct {
 //	}
 func (r Iterator[T]) All() func(func(T) bool) {
 	return func(f func(T) bool) {
-		for r.hasNext() {
+		for r.HasNext() {
 			if !f(r.Next()) {
 				return
 			}
